@@ -200,6 +200,14 @@ class Runner:
         os.makedirs(tmp)
         for i in range(neigh):
             open(os.path.join(out_dir, "neighbour-%02d.o" % i), "w").write("x" * i)
+        # files that share the output's stem (what a previous `-S` / `-c` run or the user may have left there): they
+        # are inputs of nobody and must survive the build untouched
+        sentinels = {}
+        if neigh and kind == "exe":
+            for ext in (".s", ".o", ".S", ".dora-package", ".tmp"):
+                sp = os.path.join(out_dir, "out" + ext)
+                open(sp, "w").write("sentinel %s\n" % ext)
+                sentinels[sp] = "sentinel %s\n" % ext
         ext = {"pkg": ".dora-package", "asm": "", "exe": ""}[kind]
         out = os.path.join(out_dir, "out" + ext)
         cmd = [dora, "compile", prog["src"], "-o", out] + list(prog["extra"])
@@ -225,8 +233,57 @@ class Runner:
         produced = out if kind != "asm" else out + ".s"
         if p.returncode != 0 or not os.path.exists(produced):
             return None, err[-2000:], produced
+        for sp, text in sentinels.items():
+            try:
+                ok = open(sp).read() == text
+            except OSError:
+                ok = False
+            if not ok:
+                return "CLOBBERED:" + os.path.basename(sp), "", produced
         h = sha(produced)
         return h, "", produced
+
+
+def same_stem_builds(c, run, dora, prog, backend, scratch):
+    """Builds of the same program for different collectors, started at the same moment, writing prog.<collector> into ONE
+    directory (same stem, different extension): each must equal the build of the same configuration made alone."""
+    gcs = ["swiper", "copy", "sweep", "zero"]
+    solo = {}
+    for gc in gcs:
+        h, err, _ = run.compile(dora, prog, backend, "exe", None if gc == "swiper" else gc, 0, VARIANTS[0])
+        solo[gc] = h
+    d = os.path.join(scratch, "samestem-%s-%s" % (prog["name"], backend))
+    os.makedirs(d)
+    barrier = threading.Barrier(len(gcs))
+    res = {}
+
+    def one(gc):
+        out = os.path.join(d, "prog." + gc)
+        tmp = os.path.join(d, "tmp-" + gc)
+        os.makedirs(tmp)
+        cmd = [dora, "compile", prog["src"], "-o", out] + list(prog["extra"]) + ([] if backend == "boots" else ["--cannon"])
+        if gc != "swiper":
+            cmd.append("--gc=%s" % gc)
+        barrier.wait()
+        try:
+            p = core.run_group(cmd, 900, env=run.env(0, tmp), cwd="/")
+            res[gc] = sha(out) if p.returncode == 0 and os.path.exists(out) else "FAILED: " + p.stderr.decode("utf-8", "replace")[-300:]
+        except subprocess.TimeoutExpired:
+            res[gc] = "FAILED: timeout"
+    ts = [threading.Thread(target=one, args=(gc,)) for gc in gcs]
+    for t in ts:
+        t.start()
+    for t in ts:
+        t.join()
+    n = 0
+    for gc in gcs:
+        n += 1
+        if solo[gc] is None or res.get(gc) != solo[gc]:
+            c.violation("c15:same-stem-concurrent-builds:%s" % backend,
+                        "%s [%s, gc=%s]: built at the same time as the other collectors' builds into one directory (outputs prog.%s ...) it "
+                        "differs from the build made alone: %s vs %s" % (prog["name"], backend, gc, gc, str(res.get(gc))[:80], str(solo[gc])[:16]),
+                        {"program": prog["name"], "backend": backend, "gc": gc, "alone": solo[gc], "concurrent": res.get(gc)})
+    return n * 2
 
 
 def shim_effective(dora, prog, scratch, shim):
@@ -301,6 +358,12 @@ def main(tier):
                             {"program": progs[pi]["name"], "src": progs[pi]["src"], "extra": progs[pi]["extra"], "backend": backend,
                              "kind": kind, "gc": gc, "seed": seed, "variant": v[0], "stderr": err})
                 continue
+            if h.startswith("CLOBBERED:"):
+                c.violation("c15:neighbour-file-clobbered:%s" % h.split(":")[1],
+                            "%s [%s]: building the executable changed or deleted the unrelated file %s next to the output" % (
+                                progs[pi]["name"], backend, h.split(":")[1]),
+                            {"program": progs[pi]["name"], "backend": backend, "kind": kind, "file": h.split(":")[1]})
+                continue
             groups.setdefault(gkey, []).append((h, seed, v[0], produced, hostname))
         evals = 0
         compared = 0
@@ -326,6 +389,11 @@ def main(tier):
                              "kind": kind, "gc": gc, "a": {"seed": ref[1], "variant": ref[2], "sha256": ref[0]},
                              "b": {"seed": other[1], "variant": other[2], "sha256": other[0]},
                              "sources": _sources(progs[pi])})
+        # ---- same stem, same directory, same moment
+        for prog in progs[:2]:
+            for backend in ("cannon", "boots"):
+                evals += same_stem_builds(c, run, os.path.join(fast, "dora"), prog, backend, scratch)
+                compared += 4
         # ---- dora build project (manifest-driven dependencies)
         proj_hashes = {}
         projs = []
@@ -390,7 +458,7 @@ def main(tier):
             "programs": len(progs),
             "program_names": [p["name"] for p in progs],
             "hash_seeds": len(seeds),
-            "environment_variants": [v[0] for v in VARIANTS],
+            "environment_variants": [v[0] for v in VARIANTS] + ["files sharing the output's stem must survive", "same-stem concurrent builds in one directory"],
             "concurrency": "all builds run %d at a time (the quiet-machine case is the bootstrap's sequential chain)" % vcommon.NCPU,
             "bootstrap": boot,
             "compile_failures": failures,
